@@ -224,7 +224,8 @@ func (l *Lexer) Split() []*Token {
 			tokLen = 0
 			var token *Token = nil
 
-			if next != '=' {
+			// Only !, < and > can start a two character operator with `=`
+			if next != '=' || char == '*' || char == '+' || char == '-' || char == '/' {
 				switch char {
 				case '!', '*', '+', '-', '/':
 					token = &Token{
